@@ -36,8 +36,6 @@ func VerifH12p() {
 	store := &stub.Queryable{Ser: data}
 	sym.SetGOMAXPROCS(2)
 	e := verifEngine(logicalplan.DefaultOptimizers, 300000)
-	soloA := verifExecRange(e, store, qa, start, start+step, step)
-	soloB := verifExecRange(e, store, qb, start, start+step, step)
 	var ra, rb *promql.Result
 	var wg sync.WaitGroup
 	wg.Add(2)
@@ -60,6 +58,9 @@ func VerifH12p() {
 		}
 	}()
 	wg.Wait()
+	// the solo runs come second, so that nothing is warmed up for the concurrent ones
+	soloA := verifExecRange(e, store, qa, start, start+step, step)
+	soloB := verifExecRange(e, store, qb, start, start+step, step)
 	sym.Assert("C12/both-completed", ra != nil && rb != nil)
 	if ra != nil && rb != nil {
 		verifSameMatrix("C12/queryA-as-alone", ra, soloA, "", false)
